@@ -75,7 +75,20 @@ func (g *Gen) resolveCall(cc *ssa.CallCommon) *callInfo {
 	} else {
 		ci.dynamic = true
 		ci.key = "dynamic:" + cc.Value.Type().String()
-		ci.args = append([]ssa.Value{}, cc.Args...)
+		ci.args = append([]ssa.Value{cc.Value}, cc.Args...)
+		ci.formals = append([]string{"self"}, sigFormals(cc.Signature(), false)...)
+		for _, a := range ci.args {
+			ci.argTypes = append(ci.argTypes, a.Type())
+		}
+		if c, ok := g.prog.specs.Contracts[ci.key]; ok {
+			ci.con = c
+			if len(c.Formals) > 0 {
+				ci.formals = c.Formals
+			}
+		}
+		if g.fn.Pkg != nil {
+			ci.pkg = g.fn.Pkg.Pkg
+		}
 		return ci
 	}
 	for _, a := range ci.args {
